@@ -18,7 +18,9 @@ import re
 from .common import (BUILD, ROOT, Result, count_lines, driver_path, first_difference, harness_path, sh, standard_build)
 
 DRIVER = driver_path("c10")
-HARNESS = harness_path("c10")
+# VERIF_C10_HARNESS: self-test seam - a c10 binary built from a scratch copy of /repo carrying a
+# mutant (so that /repo itself, which other checks build from concurrently, is never modified)
+HARNESS = os.environ.get("VERIF_C10_HARNESS") or harness_path("c10")
 PROP = "C10"
 VARIANT = "fixed"    # the drop of the current tree: join; sync; flush; join  (Model/Durability.v: Fixed)
 CORPUS = os.path.join(ROOT, "corpus", "C10", "schedules.txt")
@@ -39,6 +41,12 @@ def campaigns(tier):
 def run(tier):
     res = Result(PROP, tier, "proof")
     st = standard_build(res, PROP, group="c10", harness_bin="c10", model_deps=["theories/Model/Durability.vo"])
+    # no theory of this property imports a generated table: a tablegen failure (another group's
+    # source item renamed) is not an obligation of C10
+    tg = [b for b in st["broken"] if b["obligation"] == "tablegen"]
+    if tg:
+        res.notes["tablegen_failed_but_unused_by_C10"] = tg[0]["detail"][-500:]
+        st["broken"] = [b for b in st["broken"] if b["obligation"] != "tablegen"]
     work = os.path.join(BUILD, "work", "%s-%s" % (PROP, tier))
     os.makedirs(work, exist_ok=True)
     os.makedirs("/tmp/c10", exist_ok=True)
